@@ -68,8 +68,10 @@ def WellDeclared (norm : String → String) (m : Method) : Bool := wellDeclared 
 
 /-- guard: on every visit of the method the analyzer's reading of the node (`is_left_node` compares
     `identifier:position` strings of the node and the dot's left operand and looks one level up
-    only) coincides with the property's (`memberPos`) -/
-def Agrees (m : Method) : Bool := m.body.all (fun e => uvAct Cfg.fixed e == specAct e)
+    only) coincides with the property's (`memberPos`) — or both readings concern no local of
+    the method (a mention of a name the method does not declare) -/
+def Agrees (norm : String → String) (m : Method) : Bool :=
+  m.body.all (fun e => agreeUpTo norm ((locals m).map (fun d => norm d.1)) (uvAct Cfg.fixed e) (specAct e))
 
 /-! ## tie to the source: the tables say the analyzer is the repaired one -/
 
@@ -111,15 +113,16 @@ theorem filterMap_ite_map {α β : Type} (p : α → Bool) (f : α → β) (l : 
     through `norm`, the right operand of a dot not counting), each once, in declaration order,
     on the range of the declared name. -/
 theorem unused_exact (norm : String → String) (m : Method)
-    (hw : WellDeclared norm m = true) (ha : Agrees m = true) :
+    (hw : WellDeclared norm m = true) (ha : Agrees norm m = true) :
     unusedModel norm m = unusedSpec norm m := by
-  have hacts : m.evs.map (uvAct Cfg.fixed) = .enter :: acts m := by
-    simp only [Method.evs, List.map_cons, uvAct_method Cfg.fixed m.hhead, acts]
-    congr 1
-    apply List.map_congr_left
+  have hcong : (tracker countFlag Cfg.fixed.uv norm).run (.enter :: m.body.map (uvAct Cfg.fixed)) =
+      (tracker countFlag Cfg.fixed.uv norm).run (.enter :: m.body.map specAct) := by
+    apply tracker_congr countFlag Cfg.fixed.uv norm rfl rfl
     intro e he
-    simp only [Agrees, List.all_eq_true, beq_iff_eq] at ha
+    simp only [Agrees, List.all_eq_true] at ha
     exact ha e he
+  have hacts : m.evs.map (uvAct Cfg.fixed) = .enter :: m.body.map (uvAct Cfg.fixed) := by
+    simp only [Method.evs, List.map_cons, uvAct_method Cfg.fixed m.hhead]
   have hne : noEnter (acts m) = true := by
     simp only [noEnter, acts, List.all_map, List.all_eq_true, Function.comp, bne_iff_ne]
     intro e he
@@ -127,10 +130,12 @@ theorem unused_exact (norm : String → String) (m : Method)
   have := tracker_spec countFlag countFlag_lawful Cfg.fixed.uv norm rfl rfl (acts m) hne hw
   rw [unusedModel, uvRun_code]
   unfold uvRun uvRaw
-  rw [hacts, this]
-  simp only [trackSpec, unusedSpec, locals, mentioned]
-  have e := filterMap_ite_map (fun d : String × Range => hitIn norm (acts m) (norm d.1))
-    (fun d => TOut.unhit (norm d.1) d.1 d.2) (decls (acts m))
+  rw [hacts, hcong]
+  simp only [acts] at this
+  rw [this]
+  simp only [trackSpec, unusedSpec, locals, mentioned, acts]
+  have e := filterMap_ite_map (fun d : String × Range => hitIn norm (m.body.map specAct) (norm d.1))
+    (fun d => TOut.unhit (norm d.1) d.1 d.2) (decls (m.body.map specAct))
   rw [e, List.map_map]
   rfl
 
@@ -253,27 +258,27 @@ def wOk : Method :=
 
 /-- non-vacuity: a well-declared method on which the readings agree; `idle` is reported (it
     occurs only as a member name), `used` is not. -/
-example : WellDeclared asciiUpper wOk = true ∧ Agrees wOk = true ∧
+example : WellDeclared asciiUpper wOk = true ∧ Agrees asciiUpper wOk = true ∧
     unusedModel asciiUpper wOk = [⟨"W", ⟨⟨4, 6⟩, ⟨4, 10⟩⟩, "Unused var: idle", 1⟩] := by decide
 
 /-- **the pinned analyzer violates exactness (letter case)**: `var count … Count = 1` is
     well-declared, the readings agree, and the pinned analyzer reports `count`. -/
 theorem unused_old_fails_case :
-    ¬ ∀ m : Method, WellDeclared asciiUpper m = true → Agrees m = true →
+    ¬ ∀ m : Method, WellDeclared asciiUpper m = true → Agrees asciiUpper m = true →
         unusedModelOld asciiUpper m = unusedSpec asciiUpper m := by
   intro h
   exact absurd (h wCase (by decide) (by decide)) (by decide)
 
 /-- **… (`for` counter)**: a variable used only as the counter of a `for` block was reported. -/
 theorem unused_old_fails_forCounter :
-    ¬ ∀ m : Method, WellDeclared asciiUpper m = true → Agrees m = true →
+    ¬ ∀ m : Method, WellDeclared asciiUpper m = true → Agrees asciiUpper m = true →
         unusedModelOld asciiUpper m = unusedSpec asciiUpper m := by
   intro h
   exact absurd (h wFor (by decide) (by decide)) (by decide)
 
 /-- **… (string literal)**: a string literal with the variable's spelling hid the warning. -/
 theorem unused_old_fails_literal :
-    ¬ ∀ m : Method, WellDeclared asciiUpper m = true → Agrees m = true →
+    ¬ ∀ m : Method, WellDeclared asciiUpper m = true → Agrees asciiUpper m = true →
         unusedModelOld asciiUpper m = unusedSpec asciiUpper m := by
   intro h
   exact absurd (h wString (by decide) (by decide)) (by decide)
@@ -286,14 +291,14 @@ example : unusedModel asciiUpper wCase = unusedSpec asciiUpper wCase ∧
 /-- the guard `WellDeclared` is needed (1): a mention before the declaration does not count for
     the analyzer — `count = 2  var count : int` is reported although it is mentioned. -/
 theorem unused_exact_needs_declaredBeforeUse :
-    ¬ ∀ m : Method, Agrees m = true → unusedModel asciiUpper m = unusedSpec asciiUpper m := by
+    ¬ ∀ m : Method, Agrees asciiUpper m = true → unusedModel asciiUpper m = unusedSpec asciiUpper m := by
   intro h
   exact absurd (h wEarly (by decide)) (by decide)
 
 /-- the guard `WellDeclared` is needed (2): of two declarations of one name the analyzer tracks
     the first and answers the second with an error item. -/
 theorem unused_exact_needs_declaredOnce :
-    ¬ ∀ m : Method, Agrees m = true → unusedModel asciiUpper m = unusedSpec asciiUpper m := by
+    ¬ ∀ m : Method, Agrees asciiUpper m = true → unusedModel asciiUpper m = unusedSpec asciiUpper m := by
   intro h
   exact absurd (h wTwice (by decide)) (by decide)
 
